@@ -137,3 +137,15 @@ def rfc_extlen_ok(data):
 def size_bad(total, length, max_message, max_frame):
     """C16: the declared length of this data frame pushes the message / frame over a configured limit"""
     return (0 < max_message and max_message < total + length) or (0 < max_frame and max_frame < length)
+
+
+# ---- C01: the sender's side of the wire format, written from RFC 6455 section 5.2 (independent of sendFrame)
+def enc_header(fin, rsv, opcode, masked, n):
+    """first octets of a frame up to (excluding) the masking key: FIN|RSV|opcode, MASK|len7, extended length"""
+    b0 = (128 if fin else 0) + rsv * 16 + opcode
+    m = 128 if masked else 0
+    if n <= 125:
+        return bytes([b0, m + n])
+    if n <= 0xFFFF:
+        return bytes([b0, m + 126]) + struct.pack("!H", n)
+    return bytes([b0, m + 127]) + struct.pack("!Q", n)
